@@ -12,7 +12,7 @@
 (* share the evaluation (the worker that expands a state evaluates its successors).          *)
 (*                                                                                          *)
 (* Source = "all": every set of 1..MaxDecl declarations; "picks": the index tuples listed    *)
-(* in picks.ndjson (a seeded sample of a larger space, chosen by the driver).                *)
+(* in <EmitPrefix>picks.ndjson (a seeded sample of a larger space, chosen by the driver).                *)
 EXTENDS SpaceC13, Json
 
 CONSTANTS KF_Shadow,   \* TRUE: the recorded finding "best pattern shadowed" is tolerated
@@ -20,7 +20,7 @@ CONSTANTS KF_Shadow,   \* TRUE: the recorded finding "best pattern shadowed" is 
           NChunks,
           EmitPrefix   \* "" = do not write case files
 
-Picks  == ndJsonDeserialize("picks.ndjson")
+Picks  == ndJsonDeserialize(EmitPrefix \o "picks.ndjson")
 TupleSource == IF Source = "all" THEN AllTuples ELSE {Picks[i] : i \in 1..Len(Picks)}
 
 RECURSIVE SumSeq(_)
@@ -31,7 +31,8 @@ ReqSeq == SetToSeq(Reqs)
 
 \* JSON-friendly form of an outcome
 SelJ(S)  == SetToSeq({[r |-> s.r, norm |-> s.norm, params |-> SetToSeq(s.params)] : s \in S})
-OutJ(o, v, cls) == [sel |-> SelJ(o.sel), dsel |-> SelJ(o.dsel), v |-> v, cls |-> SetToSeq(cls)]
+OutJ(o, v, cls) == [sel |-> SelJ(o.sel), dsel |-> SelJ(o.dsel), v |-> v, cls |-> SetToSeq(cls),
+                    lk |-> [match |-> o.lk.match, norm |-> o.lk.norm, params |-> SetToSeq(o.lk.params)]]
 
 \* input class of a case (for the coverage report of the driver; not part of any verdict): which kind of
 \* declared pattern the model selected and whether the two readings of "most specific" differ
@@ -68,7 +69,9 @@ Summary(g) ==
      shadow |-> Count(g, "shadow"),
      oi     |-> \A o1, o2 \in 1..Len(g.orders) : \A ri \in 1..Len(g.reqs) :
                    /\ Range(g.exp[o1][ri].sel) = Range(g.exp[o2][ri].sel)
-                   /\ Range(g.exp[o1][ri].dsel) = Range(g.exp[o2][ri].dsel),
+                   /\ Range(g.exp[o1][ri].dsel) = Range(g.exp[o2][ri].dsel)
+                   /\ g.exp[o1][ri].lk.match = g.exp[o2][ri].lk.match /\ g.exp[o1][ri].lk.norm = g.exp[o2][ri].lk.norm
+                   /\ Range(g.exp[o1][ri].lk.params) = Range(g.exp[o2][ri].lk.params),
      nsel   |-> Cardinality({<<oi, ri>> \in (1..Len(g.orders)) \X (1..Len(g.reqs)) : Len(g.exp[oi][ri].sel) > 0}),
      ncases |-> Len(g.orders) * Len(g.reqs)]
 
